@@ -102,6 +102,29 @@ class AtomicSite:
     def __repr__(self):
         return '<%s %s %s>' % (self.kind, self.ord, self.where())
 
+CXX_ORDERS = {0: 'relaxed', 1: 'acquire', 2: 'acquire', 3: 'release', 4: 'acq_rel', 5: 'seq_cst'}   # std::memory_order (consume counted as acquire)
+
+def cxx_atomic_call(mod, inst):
+    """a call to std::atomic_{load,store,compare_exchange_*}_explicit<T> with constant memory orders (the c++11 atomic.h flavour
+    compiled without inlining): returns (kind, order, failure order, addr, value operands) or None"""
+    if inst.op != 'call' or not inst.callee:
+        return None
+    f = mod.func(inst.callee)
+    if f is None:
+        return None
+    n = f.srcname or ''
+    def order(ref):
+        return CXX_ORDERS.get(IR.ival(ref)) if IR.is_int(ref) else None
+    if n.startswith('atomic_load_explicit') and len(inst.ops) == 2:
+        return ('load', order(inst.ops[1]), None, inst.ops[0], [])
+    if n.startswith('atomic_store_explicit') and len(inst.ops) == 3:
+        return ('store', order(inst.ops[2]), None, inst.ops[0], [inst.ops[1]])
+    if (n.startswith('atomic_compare_exchange_strong_explicit') or n.startswith('atomic_compare_exchange_weak_explicit')) and len(inst.ops) == 5:
+        return ('cas', order(inst.ops[3]), order(inst.ops[4]), inst.ops[0], [inst.ops[1], inst.ops[2]])
+    if n.startswith('atomic_fetch_') or n.startswith('atomic_exchange'):
+        return ('rmw', order(inst.ops[-1]), None, inst.ops[0], inst.ops[1:-1])
+    return None
+
 def cas_wrappers(mod):
     """internal functions whose body is one cmpxchg on their first argument with their 2nd/3rd arguments
     (atm_cas_*_u32_ in atomic.h).  name -> (ord, ford)"""
@@ -113,6 +136,13 @@ def cas_wrappers(mod):
             c = cx[0]
             if c.ops[0] == 'a0' and c.ops[1] == 'a1' and c.ops[2] == 'a2':
                 out[f.name] = (c.x['ord'], c.x['ford'])
+        elif not cx and len(f.args) == 3:
+            # c++11 flavour: one call to std::atomic_compare_exchange_strong_explicit on the first argument
+            calls = [i for i in f.real_insts() if i.op == 'call' and not (i.callee or '').startswith('llvm.')]
+            if len(calls) == 1:
+                ca = cxx_atomic_call(mod, calls[0])
+                if ca and ca[0] == 'cas' and strip_ptr(f, ca[3]) == 'a0' and ca[1]:
+                    out[f.name] = (ca[1], ca[2])
     return out
 
 def atomic_sites(mod):
@@ -133,6 +163,10 @@ def atomic_sites(mod):
             elif i.op == 'call' and i.callee in wr:
                 o, fo = wr[i.callee]
                 sites.append(AtomicSite('cas', o, fo, i, f, i.ops[0], [i.ops[1], i.ops[2]], via=i.callee))
+            elif i.op == 'call':
+                ca = cxx_atomic_call(mod, i)
+                if ca:
+                    sites.append(AtomicSite(ca[0], ca[1] or '?', ca[2], i, f, ca[3], ca[4], via=i.callee))
     return sites
 
 def callgraph(mod):
